@@ -361,6 +361,12 @@ impl<'e> Lower<'e> {
                 if let Expr::Let(_) = &*i.cond { return Err("if-let statement".into()); }
                 let (_, c) = self.ex(&i.cond, Some(&Bool))?; let t = self.stmt_block(&i.then_branch)?;
                 let f = match &i.else_branch { None => vec![], Some((_, e)) => match &**e { Expr::Block(b) => self.stmt_block(&b.block)?, other => { let mut v = vec![]; self.stmt_expr(other, &mut v)?; v } } };
+                let only_assign = |v: &Vec<St>| v.iter().all(|s| matches!(s, St::Assign(_, e) if pure_simple(e)));
+                if only_assign(&t) && only_assign(&f) && !(t.is_empty() && f.is_empty()) {
+                    let slot = self.next; self.next += 1; stmts.push(St::Let(c));
+                    for s in &t { if let St::Assign(p, e) = s { stmts.push(St::Assign(p.clone(), prim("PSelect", vec![Ir::Var(slot), e.clone(), pl_read(p)]))); } }
+                    for s in &f { if let St::Assign(p, e) = s { stmts.push(St::Assign(p.clone(), prim("PSelect", vec![Ir::Var(slot), pl_read(p), e.clone()]))); } }
+                    return Ok(()); }
                 stmts.push(St::If(c, t, f)); Ok(()) }
             Expr::Call(c) if matches!(&*c.func, Expr::Path(p) if matches!(path_last(&p.path).as_str(), "_mm_store_ps" | "_mm_storeu_ps")) => {
                 // store into a MaybeUninit<Align16<T>> local (modelled as a 4-lane value) or into the first four elements of a slice
@@ -462,7 +468,7 @@ impl<'e> Lower<'e> {
             Expr::If(i) if matches!(&*i.cond, Expr::Let(_)) => { let Expr::Let(l) = &*i.cond else { unreachable!() }; let (st, se) = self.ex(&l.expr, None)?; let Opt(inner) = st else { return Err("if let on non-option".into()) };
                 let Pat::TupleStruct(ts) = &*l.pat else { return Err("if let pattern".into()) }; self.locals.push(HashMap::new()); let saved = self.next; if let Some(Pat::Ident(pi)) = ts.elems.first() { self.bind_new(&pi.ident.to_string(), *inner); } else { self.next += 1; }
                 let (tt, te) = self.block(&i.then_branch, expected)?; self.locals.pop(); self.next = saved; let (_, ee) = match &i.else_branch { Some((_, e)) => self.ex(e, expected)?, None => (Unit, Ir::Unit) }; Ok((tt, Ir::MatchOpt(Box::new(se), Box::new(te), Box::new(ee)))) }
-            Expr::If(i) => { let (_, c) = self.ex(&i.cond, Some(&Bool))?; let (tt, te) = self.block(&i.then_branch, expected)?; let (et, ee) = match &i.else_branch { Some((_, e)) => self.ex(e, expected.or(Some(&tt)))?, None => (Unit, Ir::Unit) }; let rt = if matches!(tt, Never | IntLit | FloatLit) { et } else { tt }; Ok((rt, Ir::If(Box::new(c), Box::new(te), Box::new(ee)))) }
+            Expr::If(i) => { let (_, c) = self.ex(&i.cond, Some(&Bool))?; let (tt, te) = self.block(&i.then_branch, expected)?; let (et, ee) = match &i.else_branch { Some((_, e)) => self.ex(e, expected.or(Some(&tt)))?, None => (Unit, Ir::Unit) }; let rt = if matches!(tt, Never | IntLit | FloatLit) { et } else { tt }; if i.else_branch.is_some() && pure_simple(&te) && pure_simple(&ee) && !matches!(rt, Never | Unit) { return Ok((rt, prim("PSelect", vec![c, te, ee]))); } Ok((rt, Ir::If(Box::new(c), Box::new(te), Box::new(ee)))) }
             Expr::Block(b) => self.block(&b.block, expected),
             Expr::Unsafe(u) => self.block(&u.block, expected),
             Expr::Match(m) => self.match_(m, expected),
@@ -632,6 +638,8 @@ impl<'e> Lower<'e> {
     }
 }
 
+/// side-effect free, total expressions: both arms of an `if` may be evaluated eagerly
+fn pure_simple(e: &Ir) -> bool { match e { Ir::Var(_) | Ir::LitF32(_) | Ir::LitF64(_) | Ir::LitI(_, _) | Ir::LitB(_) | Ir::Unit => true, Ir::Prim(p, a) => (p.starts_with("PProj ") || p == "PMk") && a.iter().all(pure_simple), _ => false } }
 fn pl_read(p: &Pl) -> Ir { match p { Pl::Var(n) => Ir::Var(*n), Pl::Fld(q, i) => proj(*i, pl_read(q)) } }
 fn contains_return(b: &Block) -> bool { struct V(bool); impl<'a> syn::visit::Visit<'a> for V { fn visit_expr_return(&mut self, _: &'a ExprReturn) { self.0 = true; } } let mut v = V(false); syn::visit::Visit::visit_block(&mut v, b); v.0 }
 /// `x as *const A as *const B` (possibly parenthesised) -> (x, B)
